@@ -59,6 +59,9 @@ func (c *vConnector) connect(ctx async.Context, addr string) (internalConn, stat
 	}
 	a, b := vnet.Pair(fmt.Sprintf("cli%d", i), fmt.Sprintf("srv%d", i))
 	a.Decisions, b.Decisions = false, false
+	if ok == 2 {
+		a.Break() // the server accepted and reset at once: the dial succeeds, the connection is dead
+	}
 	if c.record {
 		a.Record()
 	}
@@ -342,6 +345,50 @@ func init() {
 					x.Fail("reconnect back-off decreases within a run of failures", "gap before dial %d is %v after %v", i, d, prev)
 				}
 				prev = d
+			}
+			c.Close()
+			vsched.WaitIdle("quiesce")
+			c19quiescent(x, c, vc, "after Close")
+			x.Outcome = fmt.Sprintf("dials=%d", vc.dials)
+		},
+	})
+
+	// S4: auto-connect, the dial succeeds but the connection dies at once (the peer accepts and resets).
+	vexp.Register(&vexp.Scenario{
+		Name: "c19.S4.autoconnect-connection-dies-at-once", Prop: "C19", Also: []string{"C09"}, MaxSteps: 200000,
+		Bounds: func(thorough bool) vexp.Bounds {
+			if thorough {
+				return vexp.Bounds{P: 2, F: 1, E: 0}
+			}
+			return vexp.Bounds{P: 1, F: 1, E: 0}
+		},
+		Configs: func(thorough bool) []map[string]int {
+			return []map[string]int{{"dead": 1}, {"dead": 2}, {"dead": 1, "later": 1}}
+		},
+		Doc: "auto-connect client, virtual time: the first 1..2 dials succeed at TCP level but the connection is dead at once (accepted and reset), the next dial reaches a healthy server (later=1: a healthy connection first, then it is dropped and the re-dial hits dead connections): the client must end up connected to a live connection BY ITSELF, whatever the interleaving of the dying connection's close callback with the connect routine that is still registering it",
+		Body: func(x *vexp.Ctx) {
+			dead := x.P("dead", 1)
+			var script []int
+			if x.P("later", 0) == 1 {
+				script = append(script, 1)
+			}
+			for i := 0; i < dead; i++ {
+				script = append(script, 2)
+			}
+			script = append(script, 1, 1, 1)
+			c, vc := newVClient(x, ClientMode_AutoConnect, script, false)
+			if x.P("later", 0) == 1 {
+				vsched.Join("connected by itself", func() bool { return c.connected_.IsSet() })
+				vsched.WaitIdle("quiesce")
+				vc.srvs[len(vc.srvs)-1].Close()
+			}
+			vsched.Join("connected to a live connection by itself", func() bool {
+				return c.connected_.IsSet() && vc.live() > 0 && vc.dials >= len(script)-2
+			})
+			vsched.WaitIdle("quiesce")
+			c19quiescent(x, c, vc, "after dead connections")
+			if vc.live() == 0 {
+				x.Fail("auto-connect client gave up: no live connection at quiescence", "dials=%d outcomes=%v", vc.dials, vc.outcomes)
 			}
 			c.Close()
 			vsched.WaitIdle("quiesce")
